@@ -267,3 +267,23 @@ func sameStore(x, y []hstore.H) bool {
 	}
 	return vh.And(cs...)
 }
+
+// ---- exported for harnesses that submit through other entry points (the experimental engine's peers)
+
+// Yielding wraps a headers repository with a scheduling point in front of every method.
+func Yielding(h repository.Headers, maxPreempt int) repository.Headers { return yielding{h, maxPreempt} }
+
+// TwoHasher hashes a source with nonce 1 to a and any other source to b.
+func TwoHasher(a, b chainhash.Hash) service.BlockHasher { return twoHasher{a, b, 1} }
+
+// Source is an arbitrary new header on the given parent.
+func Source(prev chainhash.Hash, nonce uint32) domains.BlockHeaderSource { return source(prev, nonce) }
+
+// SameStore: the two tables hold the same rows (as sets).
+func SameStore(x, y []hstore.H) bool { return sameStore(x, y) }
+
+// CountNotifier counts events.
+type CountNotifier = countNotifier
+
+// Count is the number of events seen.
+func (r *countNotifier) Count() int { return r.n }
